@@ -172,6 +172,21 @@ impl Live {
                 bounds.sort();
                 bounds.dedup();
                 bounds.push(chars.len());
+                if cuts.contains(&0) {
+                    // a cut "at 0" selects the per-character entry point: the whole item goes through
+                    // Vt::feed(), then an empty feed_str reports the changed lines of that loop
+                    for ch in &chars {
+                        rep.chars += 1;
+                        if let Some(f) = self.parser.feed(*ch) {
+                            rep.funcs.push(f);
+                        }
+                        self.vt.feed(*ch);
+                    }
+                    let ch = self.vt.feed_str("");
+                    lines_all.extend(ch.lines.iter());
+                    consume(ch.scrollback, &Drain::All, &mut rep);
+                    bounds.clear();
+                }
                 for b in bounds {
                     let piece: String = chars[start..b].iter().collect();
                     for ch in piece.chars() {
@@ -223,8 +238,14 @@ impl Live {
                     vt.feed(ch);
                 }
             }
-            Event::Inert { s, .. } => {
-                vt.feed_str(s);
+            Event::Inert { s, cuts } => {
+                if cuts.contains(&0) {
+                    for ch in s.chars() {
+                        vt.feed(ch);
+                    }
+                } else {
+                    vt.feed_str(s);
+                }
             }
             Event::Resize { cols, rows, drain } => {
                 let ch = vt.resize(*cols, *rows);
@@ -302,6 +323,18 @@ pub struct GenStats {
     pub snapshot_mid_seq: u64,
     pub damage: u64,
     pub intra_token_events: u64,
+    pub giant_resizes: u64,
+}
+
+/// CPU time consumed by the calling thread, in nanoseconds (not wall-clock: being descheduled on a
+/// loaded machine does not count).
+pub fn thread_cpu_ns() -> u64 {
+    let mut ts = libc::timespec { tv_sec: 0, tv_nsec: 0 };
+    // SAFETY: plain syscall wrapper writing into a local timespec
+    unsafe {
+        libc::clock_gettime(libc::CLOCK_THREAD_CPUTIME_ID, &mut ts);
+    }
+    ts.tv_sec as u64 * 1_000_000_000 + ts.tv_nsec as u64
 }
 
 /// Generate the atoms of one session. `atoms` is filled incrementally so that a panic of the
@@ -360,6 +393,9 @@ pub fn gen_session(r: &mut Rng, cfg: &Config, o: &SessionOpts, atoms: &mut Vec<A
     let gigantic = cfg.cols * cfg.rows > 20_000;
     let ntok = if gigantic { r.range(p.min_tokens.min(12), p.max_tokens.min(12)) } else { r.range(p.min_tokens, p.max_tokens) };
 
+    // number of lines of the primary buffer while it is parked behind the alternate screen (it is
+    // re-wrapped to the current width when the terminal returns to it)
+    let parked = std::cell::Cell::new(0usize);
     let feed_shadow = |shadow: &mut Vt, sparser: &mut Parser, alt: &mut bool, s: &str| {
         for ch in s.chars() {
             if let Some(f) = sparser.feed(ch) {
@@ -367,6 +403,9 @@ pub fn gen_session(r: &mut Rng, cfg: &Config, o: &SessionOpts, atoms: &mut Vec<A
                     Function::Decset(ms) => {
                         for m in ms {
                             if matches!(m, avt::parser::DecMode::AltScreenBuffer | avt::parser::DecMode::SaveCursorAltScreenBuffer) {
+                                if !*alt {
+                                    parked.set(shadow.lines().len());
+                                }
                                 *alt = true;
                             }
                         }
@@ -387,6 +426,11 @@ pub fn gen_session(r: &mut Rng, cfg: &Config, o: &SessionOpts, atoms: &mut Vec<A
     };
 
     for _ in 0..ntok {
+        // cost bound: a session ends once the terminal holds more than 8 M cells (~100 MB) - only
+        // reachable after a resize to a very wide geometry followed by scrolling
+        if p.giant_resizes && shadow.lines().len() * cols > 8_000_000 {
+            break;
+        }
         gs.tokens += 1;
         let (_fam, mut tok) = gen_token(r, cols, rows, p);
         if p.damage_pm > 0 && r.below(1000) < p.damage_pm as u64 {
@@ -399,9 +443,23 @@ pub fn gen_session(r: &mut Rng, cfg: &Config, o: &SessionOpts, atoms: &mut Vec<A
         let inflight = pending || alt || sparser.state != State::Ground;
         let boost = if inflight { p.boost.max(1) as u64 } else { 1 };
         let mut evs: Vec<Event> = vec![];
-        if !gigantic && p.resize_pm > 0 && r.below(1000) < p.resize_pm as u64 * boost {
-            let (c, rw) = gen_resize(r, cols, rows, o.max_cols, o.max_rows);
-            evs.push(Event::Resize { cols: c, rows: rw, drain: Drain::All });
+        if (!gigantic || p.giant_resizes) && p.resize_pm > 0 && r.below(1000) < p.resize_pm as u64 * boost {
+            let mut target = gen_resize(r, cols, rows, o.max_cols, o.max_rows);
+            let held = shadow.lines().len().max(if alt { parked.get() } else { 0 });
+            if p.giant_resizes && r.chance(1, if cols * rows > 20_000 { 2 } else { 80 }) {
+                // legitimate cost of a resize ~ (rows kept + rows of the screen) x new width: keep it
+                // below a few million cells so that a run stays in the millisecond range
+                let g = giant_resize_target(r);
+                // (and not in front of a burst generated for the old, small geometry)
+                if (held + g.1) * g.0 <= 4_000_000 && tok.len() <= 400 {
+                    target = g;
+                    gs.giant_resizes += 1;
+                }
+            }
+            // leaving a gigantic geometry: only towards small screens (an ordinary target may be 512 wide)
+            if (held + target.1) * target.0 <= 4_000_000 {
+                evs.push(Event::Resize { cols: target.0, rows: target.1, drain: Drain::All });
+            }
         }
         if p.snapshot_pm > 0 && r.below(1000) < p.snapshot_pm as u64 * boost {
             evs.push(Event::Snapshot);
